@@ -420,15 +420,24 @@ pub struct Structure {
 
 /// Synthesises the op honestly under MockProver and fingerprints its structure.
 pub fn structure_of<O: Op>(op: &O, x: &[BigUint]) -> Result<Structure, String> {
-    use std::hash::{Hash, Hasher};
     let inst = op.reference(x).ok_or_else(|| "input outside the domain".to_string())?;
     let rel = OpRel { op: op.clone() };
-    // k from the cost model of THIS witness (not the per-op cache): row usage must
-    // not depend on the witness either
-    let k = vpcore::catch(|| MidnightCircuit::new(&rel, Value::known(vec![]), Value::known(x.to_vec()), Some(op.max_bit_len())).min_k())?;
+    structure_of_relation(&rel, inst.clone(), x.to_vec(), &inst, op.max_bit_len())
+}
+
+/// Fingerprint of the fixed part of a relation's circuit for one (instance, witness):
+/// k from the cost model of THIS witness (row usage must not depend on it either), fixed
+/// columns, selectors and copy constraints of the MockProver run.
+pub fn structure_of_relation<R: Relation>(rel: &R, instance: R::Instance, witness: R::Witness, pi: &[F], max_bit_len: u8) -> Result<Structure, String>
+where
+    R::Instance: Clone,
+    R::Witness: Clone,
+{
+    use std::hash::{Hash, Hasher};
+    let k = vpcore::catch(|| MidnightCircuit::new(rel, Value::known(instance.clone()), Value::known(witness.clone()), Some(max_bit_len)).min_k())?;
     let prover = vpcore::catch(|| {
-        let c = MidnightCircuit::new(&rel, Value::known(inst.clone()), Value::known(x.to_vec()), Some(op.max_bit_len()));
-        MockProver::run(k, &c, vec![vec![], inst.clone()])
+        let c = MidnightCircuit::new(rel, Value::known(instance.clone()), Value::known(witness.clone()), Some(max_bit_len));
+        MockProver::run(k, &c, vec![vec![], pi.to_vec()])
     })?
     .map_err(|e| format!("{e:?}"))?;
     let h = |f: &dyn Fn(&mut std::collections::hash_map::DefaultHasher)| {
@@ -450,7 +459,7 @@ pub fn structure_of<O: Op>(op: &O, x: &[BigUint]) -> Result<Structure, String> {
     let selectors = h(&|s| prover.selectors().hash(s));
     let mapping: Vec<Vec<(usize, usize)>> = prover.permutation().mapping().map(|c| c.collect::<Vec<_>>()).collect();
     let permutation = h(&|s| mapping.hash(s));
-    Ok(Structure { k, fixed, selectors, permutation, n_public: inst.len(), regions: 0 })
+    Ok(Structure { k, fixed, selectors, permutation, n_public: pi.len(), regions: 0 })
 }
 
 /// Verifying-key bytes of the op's circuit generated without a witness
